@@ -86,8 +86,11 @@ def _extra(ctx, spec):
                  op='gendiff <generator>', impl=info.get('log', '')[-1500:], demanded='generator output = checked-in files')
     elif diff:
         fd = info.get('first_diff') or {}
+        def row(f):
+            r = f.get('row')
+            return f"{f['path']}" + (f" line {r['line']}: checked-in `{r['tree']}` / regenerated `{r['regen']}`" if r else '')
         ctx.fail('prop', f"{len(diff)} generated file(s) differ from what the generator produces from Profile.xlsx: " +
-                 ', '.join(f['path'] for f in diff[:5]),
+                 '; '.join(row(f) for f in diff[:5]),
                  op='gendiff ' + diff[0]['path'], impl='checked-in sha256 ' + str(diff[0]['tree']), demanded='regenerated sha256 ' + str(diff[0]['regen']),
                  diff=fd.get('diff', ''))
     elif info.get('extra'):
@@ -105,6 +108,7 @@ PROP = dict(
               'Fit.C17.C17_profile_types', 'Fit.C17.C17_version', 'Fit.C17.C17_mesgdef_matches_xlsx',
               'Fit.C17.C17_distinct_sound', 'Fit.C17.C17_sorted_eq_perm'],
     families=[dict(name='profilerows', spec=True, shrink=False)],
+    lean_extra_targets=['driver'],   # built in the same lake invocation as the theorems (the C compilation of a changed table runs beside the kernel checks)
     extra=_extra,
     trusted_base=STD_TRUST + [
         "translators/gendigest.py: runs the repository's own generator (go run main.go -f Profile.xlsx -p <scratch> -b all --profile-version <from version_gen.go> -y) outside the repository and hashes its output and the checked-in files (sha256)",
